@@ -339,14 +339,13 @@ theorem ttsv_v1_closed [CommSemiring α] (T : Dense α) (hT : T.WF) (x : List α
 
 /-! ### the default version -/
 
-/-- **`ttsv`, default version / `version = 2`** in closed form on a cubical tensor: the same loop result, with
-the one deviation that a length-1 vector result comes back as a scalar. -/
+/-- **`ttsv`, default version / `version = 2`** in closed form on a cubical tensor: the same loop result as
+`version = 1`. -/
 theorem ttsv_v2_closed [CommSemiring α] (T : Dense α) (hT : T.WF) (d n : Nat) (hd : 1 ≤ d)
     (hshape : T.shape = List.replicate d n) (x : List α)
     (skip : Option Int) (hskip : TtsvSkipOk d skip) (hx : ttsvKeep skip < d → x.length = n) :
-    T.ttsv x skip .v2 = .ok (if ttsvKeep skip = 1 ∧ n = 1
-      then .scalar ((Dense.ttvLoop T.data T.shape (List.replicate (d - ttsvKeep skip) x)).1.getD 0 0)
-      else ttsvResOf (ttsvKeep skip) (Dense.ttvLoop T.data T.shape (List.replicate (d - ttsvKeep skip) x))) := by
+    T.ttsv x skip .v2 = .ok (ttsvResOf (ttsvKeep skip)
+      (Dense.ttvLoop T.data T.shape (List.replicate (d - ttsvKeep skip) x))) := by
   have hlen : T.shape.length = d := by rw [hshape, List.length_replicate]
   obtain ⟨s, hs, hsk, hle, hm1, _, _⟩ := ttsvSkip_ok d skip hskip
   set dnew := ttsvKeep skip with hdnew
@@ -356,7 +355,6 @@ theorem ttsv_v2_closed [CommSemiring α] (T : Dense α) (hT : T.WF) (d n : Nat) 
   have htake : T.shape.take dnew = List.replicate dnew n := by
     rw [hshape, List.take_replicate, Nat.min_eq_left hle]
   rw [htake] at r2
-  rw [htake, numel_replicate'] at r1
   have hloop : Dense.ttsvLoop x n dnew (d - dnew) T.data = R.1 := by
     rw [ttsvLoop_eq_ttvLoop, hR, hshape]
     congr 3
@@ -383,12 +381,8 @@ theorem ttsv_v2_closed [CommSemiring α] (T : Dense α) (hT : T.WF) (d n : Nat) 
   simp only [Bool.false_eq_true, if_false]
   unfold ttsvResOf
   rcases (by omega : dnew = 0 ∨ dnew = 1 ∨ dnew = 2 ∨ 2 < dnew) with h | h | h | h
-  · have hl1 : R.1.length = 1 := by rw [r1, h]; rfl
-    simp [h, hl1]
-  · have hl1 : R.1.length = n := by rw [r1, h, Nat.pow_one]
-    by_cases hn : n = 1
-    · simp [h, hl1, hn]
-    · simp [h, hl1, hn]
+  · simp [h]
+  · simp [h]
   · simp [h, r2]
   · have h2 : dnew ≠ 2 := by omega
     have h1 : dnew ≠ 1 := by omega
@@ -483,15 +477,12 @@ theorem ttsv_v1_spec [CommSemiring α] (T : Dense α) (hT : T.WF) (x : List α)
   obtain ⟨h1, h2, h3⟩ := ttsvResOf_spec T hT x (ttsvKeep skip) hle
   exact ⟨_, ttsv_v1_closed T hT x skip hskip hx, h1, h2, h3⟩
 
-/-- **`ttsv` on a cubical tensor, every version**: the defined entries; the kept extents and the kind that
-belongs to `skip_dim` — except that the default version / `version = 2` hands the length-1 vector of an
-extent-1 tensor back as a scalar. -/
+/-- **`ttsv` on a cubical tensor, every version**: the defined entries, the kept extents and the kind that belongs
+to `skip_dim`. -/
 theorem ttsv_cubical_spec [CommSemiring α] (T : Dense α) (hT : T.WF) (d n : Nat) (hd : 1 ≤ d)
     (hshape : T.shape = List.replicate d n) (x : List α) (skip : Option Int) (hskip : TtsvSkipOk d skip)
     (hx : ttsvKeep skip < d → x.length = n) (ver : TtsvVer) (hver : ver ≠ .other) :
-    ∃ r, T.ttsv x skip ver = .ok r ∧
-      (if ver ≠ .v1 ∧ ttsvKeep skip = 1 ∧ n = 1 then r.shape = [] ∧ r.kind = 0
-       else r.shape = List.replicate (ttsvKeep skip) n ∧ r.kind = min (ttsvKeep skip) 3) ∧
+    ∃ r, T.ttsv x skip ver = .ok r ∧ r.shape = List.replicate (ttsvKeep skip) n ∧ r.kind = min (ttsvKeep skip) 3 ∧
       ∀ i, InBounds (List.replicate (ttsvKeep skip) n) i → r.get i = Spec.ttsv T.den x (ttsvKeep skip) i := by
   have hlen : T.shape.length = d := by rw [hshape, List.length_replicate]
   obtain ⟨_, _, _, hle, _⟩ := ttsvSkip_ok d skip hskip
@@ -515,69 +506,16 @@ theorem ttsv_cubical_spec [CommSemiring α] (T : Dense α) (hT : T.WF) (d n : Na
     cases Dense.ttsvSkip T.shape.length skip <;> rfl
   cases ver with
   | other => exact absurd rfl hver
-  | v1 =>
-    refine ⟨_, hv1, ?_, h3⟩
-    rw [if_neg (fun h => h.1 rfl)]
-    exact ⟨h1, h2⟩
-  | v2 =>
-    by_cases hg : dnew = 1 ∧ n = 1
-    · rw [if_pos hg] at hv2
-      refine ⟨_, hv2, ?_, ?_⟩
-      · rw [if_pos ⟨by decide, hg⟩]
-        exact ⟨rfl, rfl⟩
-      · intro i hi
-        rw [hg.1, hg.2] at hi
-        obtain ⟨k, rfl, hk⟩ := inBounds_singleton hi
-        have hk0 : k = 0 := by omega
-        subst hk0
-        have := h3 [0] (by rw [hg.1, hg.2]; exact ⟨by omega, trivial⟩)
-        rw [← this]
-        have hvec : ttsvResOf dnew (Dense.ttvLoop T.data T.shape (List.replicate (d - dnew) x)) =
-            .vec (Dense.ttvLoop T.data T.shape (List.replicate (d - dnew) x)).1 := by
-          unfold ttsvResOf
-          rw [if_neg (by omega), if_pos hg.1]
-        rw [hvec]
-        rfl
-    · rw [if_neg hg] at hv2
-      refine ⟨_, hv2, ?_, h3⟩
-      rw [if_neg (fun h => hg h.2)]
-      exact ⟨h1, h2⟩
-  | default =>
-    rw [hdef]
-    by_cases hg : dnew = 1 ∧ n = 1
-    · rw [if_pos hg] at hv2
-      refine ⟨_, hv2, ?_, ?_⟩
-      · rw [if_pos ⟨by decide, hg⟩]
-        exact ⟨rfl, rfl⟩
-      · intro i hi
-        rw [hg.1, hg.2] at hi
-        obtain ⟨k, rfl, hk⟩ := inBounds_singleton hi
-        have hk0 : k = 0 := by omega
-        subst hk0
-        have := h3 [0] (by rw [hg.1, hg.2]; exact ⟨by omega, trivial⟩)
-        rw [← this]
-        have hvec : ttsvResOf dnew (Dense.ttvLoop T.data T.shape (List.replicate (d - dnew) x)) =
-            .vec (Dense.ttvLoop T.data T.shape (List.replicate (d - dnew) x)).1 := by
-          unfold ttsvResOf
-          rw [if_neg (by omega), if_pos hg.1]
-        rw [hvec]
-        rfl
-    · rw [if_neg hg] at hv2
-      refine ⟨_, hv2, ?_, h3⟩
-      rw [if_neg (fun h => hg h.2)]
-      exact ⟨h1, h2⟩
+  | v1 => exact ⟨_, hv1, h1, h2, h3⟩
+  | v2 => exact ⟨_, hv2, h1, h2, h3⟩
+  | default => rw [hdef]; exact ⟨_, hv2, h1, h2, h3⟩
 
-/-- **The two code paths agree** on a cubical tensor: literally the same result, except that for an extent-1
-tensor with `skip_dim = 0` the default version returns the scalar `v` where `version = 1` returns the vector
-`[v]`. -/
+/-- **The two code paths agree** on a cubical tensor: literally the same result. -/
 theorem ttsv_versions_agree [CommSemiring α] (T : Dense α) (hT : T.WF) (d n : Nat) (hd : 1 ≤ d)
     (hshape : T.shape = List.replicate d n) (x : List α) (skip : Option Int) (hskip : TtsvSkipOk d skip)
     (hx : ttsvKeep skip < d → x.length = n) :
-    T.ttsv x skip .default = T.ttsv x skip .v2 ∧
-    (¬ (ttsvKeep skip = 1 ∧ n = 1) → T.ttsv x skip .v1 = T.ttsv x skip .v2) ∧
-    (ttsvKeep skip = 1 ∧ n = 1 → ∃ v, T.ttsv x skip .v1 = .ok (.vec [v]) ∧ T.ttsv x skip .v2 = .ok (.scalar v)) := by
+    T.ttsv x skip .default = T.ttsv x skip .v2 ∧ T.ttsv x skip .v1 = T.ttsv x skip .v2 := by
   have hlen : T.shape.length = d := by rw [hshape, List.length_replicate]
-  obtain ⟨_, _, _, hle, _⟩ := ttsvSkip_ok d skip hskip
   have hv1 := ttsv_v1_closed T hT x skip (by rw [hlen]; exact hskip) (by
       intro k hk1 hk2
       rw [hlen] at hk2
@@ -585,26 +523,14 @@ theorem ttsv_versions_agree [CommSemiring α] (T : Dense α) (hT : T.WF) (d n : 
       exact (hx (by omega)).symm)
   rw [hlen] at hv1
   have hv2 := ttsv_v2_closed T hT d n hd hshape x skip hskip hx
-  refine ⟨?_, ?_, ?_⟩
-  · unfold Dense.ttsv
-    cases Dense.ttsvSkip T.shape.length skip <;> rfl
-  · intro hg
-    rw [hv1, hv2, if_neg hg]
-  · intro hg
-    rw [if_pos hg] at hv2
-    obtain ⟨_, r1, _⟩ := ttvLoop_same_vector T hT x (ttsvKeep skip)
-    rw [hlen] at r1
-    have htake : T.shape.take (ttsvKeep skip) = List.replicate (ttsvKeep skip) n := by
-      rw [hshape, List.take_replicate, Nat.min_eq_left hle]
-    rw [htake, numel_replicate'] at r1
-    set R := Dense.ttvLoop T.data T.shape (List.replicate (d - ttsvKeep skip) x) with hR
-    have r1' : R.1.length = 1 := by rw [r1, hg.1, hg.2]; rfl
-    refine ⟨R.1.getD 0 0, ?_, hv2⟩
-    rw [hv1]
-    unfold ttsvResOf
-    rw [if_neg (by omega), if_pos hg.1]
-    congr 2
-    exact list_length_one r1'
+  refine ⟨?_, by rw [hv1, hv2]⟩
+  unfold Dense.ttsv
+  cases Dense.ttsvSkip T.shape.length skip <;> rfl
+
+/-- The tail of the default version as it was before the fix 0527d3b (`if len(y) == 1: return y.item()`), kept
+for the pinned counterexample only. -/
+def ttsvTailPinned [Zero α] (y : List α) : TtsvRes α :=
+  if y.length == 1 then .scalar (y.getD 0 0) else .vec y
 
 /-! ### rejections -/
 
